@@ -90,12 +90,13 @@ func main() {
 			fmt.Fprintln(os.Stderr, err)
 			os.Exit(2)
 		}
-		var res *keysim.Result
-		for _, ep := range rf.Episodes {
-			res = keysim.Run(ep)
+		vs, err := keysim.ReplayFresh(self, rf.Episodes)
+		if err != nil {
+			fmt.Fprintln(os.Stderr, "replay:", err)
+			os.Exit(2)
 		}
 		hit := false
-		for _, v := range res.Violations {
+		for _, v := range vs {
 			mark := " "
 			if v.Property == rf.Property && (rf.Oracle == "" || v.Oracle == rf.Oracle) {
 				hit = true
